@@ -44,6 +44,7 @@ INVARIANT IntersectsSound
 INVARIANT ContainsSound
 INVARIANT SampleSound
 INVARIANT HistoryFree
+INVARIANT MeasSound
 INVARIANT Emit
 CHECK_DEADLOCK FALSE
 """
@@ -130,6 +131,12 @@ def observe_region(R, cp_idx, sd, dz=0):
             o["cp_exc"] = _exc(e)
             break
     o["cp"] = cp
+    # size
+    try:
+        sz = R.size
+        o["size"] = None if sz is None else float(sz)
+    except Exception as e:
+        o["size"] = _exc(e)
     # AABB
     try:
         bb = R.AABB
@@ -272,6 +279,11 @@ HISTORIES = [
     ("F2", "B", [("V3", 0), ("V3", 300), ("V3", 150)]),
     ("F1", "A", [("T1", 0), ("T1", 250), ("T1", -250)]),
     ("F1", "B", [("V1", 0), ("V1", -400), ("V2", 260)]),
+    # operands that straddle the END of the cached prism (cached from V1 at ground level: about
+    # [-249, 251]): a stale reuse truncates the result instead of emptying it
+    ("F1", "B", [("V1", 0), ("V1", 249), ("V1", -251)]),
+    ("F1", "B", [("V1", 0), ("VT", 250), ("VT", -250)]),
+    ("F1", "A", [("V2", 0), ("VT", 240)]),
     ("FP1", "B", [("V1", 0), ("V1", 300)]),
     ("V1", "A", [("V2", 0), ("V2", 8), ("V2", 0), ("V3", 0)]),
     ("V1", "B", [("P2", 0), ("P2", 8), ("P1", 0)]),
@@ -298,6 +310,8 @@ def full_catalogue():
     fp1["via_polygon"] = p1["n"][0] / S
     cat.append(fp1)
     ix["FP1"] = len(cat) - 1
+    cat.append(G.vol("VT", (-2, 2, -1, 3, -50, 50)))  # a tall box, only used translated in histories
+    ix["VT"] = len(cat) - 1
     hists = []
     for reused, side, steps in HISTORIES:
         hs = []
@@ -497,6 +511,13 @@ def compare_region(ck, label, descs, op, exp, obs, probes, distidx, replay_base)
                 if wrong:
                     bad("aabb-z" if c == 2 else "aabb", f"AABB axis {'xyz'[c]} = [{lo[c]}, {hi[c]}], {wrong}", {"axis": c, "observed": [lo[c], hi[c]], "observed_z": lo[2]})
                     break
+    # size of the result where the spec states it
+    if exp.get("meas", -1) >= 0 and isinstance(obs.get("size"), float):
+        n += 1
+        dim = exp["dim"] if "dim" in exp else (2 if bb["b"][4] == bb["b"][5] else 3)
+        want = exp["meas"] / S**dim
+        if abs(obs["size"] - want) > 1e-6 * max(1.0, want):
+            bad("size", f"size = {obs['size']}, the composed set has measure {want}", {"observed": obs["size"], "expected": want})
     # distanceTo
     ds = obs["dist"]
     if isinstance(ds, dict):
@@ -575,7 +596,18 @@ def choose_pairs(tier, ncat):
     rng = random.Random(seed() * 7919 + 16)
     rest = [p for p in allp if not (p[0] in cs and p[1] in cs)]
     rng.shuffle(rest)
-    return [p for p in allp if p[0] in cs and p[1] in cs] + sorted(rest[:300])
+    # always: the meshes whose cross-sections have holes against planar regions / footprints at
+    # heights through the hole, through the solid part and outside, both dispatch orders
+    names = {d["name"]: i for i, d in enumerate(cat)}
+    forced = set()
+    for w in ("W1", "W2"):
+        for o in ("P2", "H1", "H2", "R2", "C2", "S4", "F1", "P1", "R1", "C1", "P3", "M3"):
+            forced.add((names[w], names[o]))
+            forced.add((names[o], names[w]))
+    core_pairs = [p for p in allp if p[0] in cs and p[1] in cs]
+    extra = [p for p in sorted(forced) if p not in set(core_pairs)]
+    rest = [p for p in rest if p not in forced]
+    return core_pairs + extra + sorted(rest[:260])
 
 
 _DUMP = []
@@ -785,7 +817,7 @@ def main(tier):
     ck.cov["exhaustive"] = tier != "quick"
     ck.cov["explanation"] = (
         "TLC checks the laws on every probe for every selected ordered pair and operation; thorough = all ordered pairs of the "
-        "catalogue, quick = all pairs of a core (one or two instances per kind) plus 300 seeded other pairs"
+        "catalogue, quick = all pairs of a core (one or two instances per kind) plus the holed-mesh pairs and 260 seeded other pairs"
     )
     return ck.finish()
 
